@@ -800,7 +800,7 @@ pub fn run_c17(o: &Opts) -> i32 {
         use rink_core::output::QueryReply;
         let mut big = rink_core::simple_context().expect("bundled context");
         let mut small = rink_core::Context::new();
-        let text = "m !meter\ns !second\n!category wsb \"Workshop\"\nbanana 2 m\n!endcategory\n!category wsa \"Workshop\"\napple 3 m\ncherry 5 m\n!endcategory\n!category orchard \"Orchard\"\nplum 7 m\n!endcategory\ndamson 11 m\n\
+        let text = "m !meter\ns !second\n!category wsb \"Workshop\"\nbanana 2 m\n!endcategory\n!category wsa \"Workshop\"\napple 3 m\ncherry 5 m\n!endcategory\n!category orchard \"Orchard\"\nplum 7 m\n!endcategory\ndamson 11 m\nzerolength 0 m\nnospeed 0 m / s\n\
                     distance ? m\nduration ? s\npace ? duration / distance\nquickness ? distance / duration\nsurge ? quickness / duration\n";
         let load = small.load_definitions(text);
         let mut out = vec![];
@@ -816,7 +816,7 @@ pub fn run_c17(o: &Opts) -> i32 {
             out.push(v);
         }
         crate::util::write_json(&format!("{}/twodb.json", o.out), &json!({"load": format!("{:?}", load), "quantities": ["distance", "duration", "pace", "quickness", "surge"],
-            "category_ids": {"Workshop": 2, "Orchard": 1}, "units": {"banana": "Workshop", "apple": "Workshop", "cherry": "Workshop", "plum": "Orchard", "damson": null, "meter": null}, "answers": out}));
+            "category_ids": {"Workshop": 2, "Orchard": 1}, "units": {"banana": "Workshop", "apple": "Workshop", "cherry": "Workshop", "plum": "Orchard", "damson": null, "zerolength": null, "meter": null}, "answers": out}));
     }
     0
 }
